@@ -109,7 +109,7 @@ def run(tier, replay=None):
                 '(one per abstract generator position + random deep walks); non-trivial = has at least one transaction set')
     q = tier == 'quick'
     rnd = random.Random(vlib.seed() + 2)
-    files = wc.choose_maps(tier, rnd)
+    files = wc.choose_maps(tier, rnd, wide=True)
     gens = wc.gen_docs_many(files, cap=2, maxdepth=60 if q else 80, timeout=2400)
     sims = wc.gen_docs_many(files, cap=3, maxdepth=150, mode='sim', num=40 if q else 400, seed=vlib.seed(), timeout=2400)
     model_viol = {}
@@ -122,11 +122,23 @@ def run(tier, replay=None):
         res = vlib.TlcResult(); res.distinct = g['distinct'] + s['distinct']; res.generated = g['generated'] + s['generated']; res.depth = max(g['depth'], s['depth']); res.wall = g['wall'] + s['wall']
         chk.add_tlc(res, 'DocGen ' + fn)
         docs = g['docs'] + [d for d in s['docs'] if d not in g['docs']]
-        if q and len(docs) > 160:
-            docs = rnd.sample(g['docs'], min(len(g['docs']), 130)) + s['docs'][:30]
+        big = len(wc.export_map(fn)[1]['nodes']) > 120
+        if q and len(docs) > (160 if big else 70):
+            docs = rnd.sample(g['docs'], min(len(g['docs']), 130 if big else 50)) + s['docs'][:(30 if big else 20)]
         if g['viol'] or s['viol']:
             model_viol[fn] = (g['viol'] + s['viol'])[:5]
         _, full = wc.export_map(fn)
+        # envelope multiplicity: the same walk with its transaction set / group / interchange taken twice (the envelope loops
+        # repeat >1 in every map, so these are conformant documents; the coarse generator view rarely reaches them)
+        ids = {n['n']: n['id'] for n in full['nodes']}
+        multi = []
+        for base_doc in docs[:3 if q else 12]:
+            sid = [ids[x] for x in base_doc]
+            for a, b in (('ST', 'SE'), ('GS', 'GE'), ('ISA', 'IEA')):
+                if a in sid and b in sid:
+                    i, j = sid.index(a), sid.index(b)
+                    multi.append(base_doc[:j + 1] + base_doc[i:j + 1] + base_doc[j + 1:])
+        docs = docs + [m for m in multi if m not in docs]
         docs_of[fn] = docs
         for b in vlib.chunked(docs, 12):
             jobs.append((fn, full, b, base, True))
